@@ -20,9 +20,9 @@ arr_real FIRInterpolator::process(const arr_real& in) {
     const int nd = d_.size();
 
     arr_real px(nd + nx);
-    std::memcpy(px.data(), d_.data(), nd * sizeof(real_t));
-    std::memcpy(px.data() + nd, in.data(), nx * sizeof(real_t));
-    std::memcpy(d_.data(), px.data() + nx, nd * sizeof(real_t));
+    std::copy_n(d_.data(), nd, px.data());
+    std::copy_n(in.data(), nx, px.data() + nd);
+    std::copy_n(px.data() + nx, nd, d_.data());
 
     auto y = arr_real(nx * interp_);
     auto* py = y.data();
